@@ -568,6 +568,7 @@ looked up. -/
 
 def Acc.isPlain : Acc → Bool
   | .key _ => false
+  | .var _ _ => false
   | _ => true
 
 /-- the path segment of a plain accessor -/
@@ -576,6 +577,7 @@ def Acc.seg : Acc → Nat
   | .idx i => i
   | .kfld i => i
   | .key k => k
+  | .var _ i => i
 
 /-- the trigger path (and value position) of a chain of plain accessors -/
 def chainPath (c : Chain) : Path := c.map Acc.seg
@@ -613,6 +615,7 @@ theorem stepAcc_plain (st : St) (w : Walk) (a : Acc) (h : a.isPlain = true) :
   | idx i => rfl
   | kfld i => rfl
   | key k => cases h
+  | var v i => cases h
 
 /-- the walk along a chain of plain accessors, started from any walk state `w` that has not passed a key step -/
 theorem foldl_plain (st : St) (c : Chain) : ∀ (w : Walk) (vp : Path),
@@ -1471,6 +1474,7 @@ theorem writeVia_fldIdx (st : St) (c : Chain) (hc : ∀ a ∈ c, a.isFldIdx = tr
     | idx i => rfl
     | kfld i => cases hb
     | key k => cases hb
+    | var v i => cases hb
 
 theorem any_hit_iff (p q : Path) (m : List (Trig × List Nat)) (e : Nat)
     (hsub : ∀ t, (subsOf m t).contains e = true ↔ t ∈ trackSet q) :
@@ -1490,15 +1494,15 @@ theorem C16_write_wakes_iff_related (st : St) (c : Chain) (q : Path) (w : Val) (
     (hni : NoImm st) (he : st.effs[e]? = some x)
     (hsub : ∀ t, (subsOf st.subs t).contains e = true ↔ t ∈ trackSet q)
     (hp : (st.val.get (chainPath c)).isSome) :
-    (stepOp st (.set c w)).1.val = st.val.set (chainPath c) w ∧
-    ∃ x', (stepOp st (.set c w)).1.effs[e]? = some x' ∧
+    (stepOp st (.set c w none)).1.val = st.val.set (chainPath c) w ∧
+    ∃ x', (stepOp st (.set c w none)).1.effs[e]? = some x' ∧
       x'.chain = x.chain ∧ x'.kind = x.kind ∧ x'.imm = x.imm ∧
       (x'.woken = true ↔ (x.woken = true ∨ chainPath c <+: q ∨ q <+: chainPath c)) := by
   cases hg : st.val.get (chainPath c) with
   | none => simp [hg] at hp
   | some old =>
     have hw := writeVia_fldIdx { st with log := [] } c hc (fun _ => w) old hg
-    have hstep : stepOp st (.set c w) = writeVia { st with log := [] } c (fun _ => w) := rfl
+    have hstep : stepOp st (.set c w none) = writeVia { st with log := [] } c (fun _ => w) := rfl
     rw [hstep, hw]
     have hni' : NoImm { st with log := [], val := st.val.set (chainPath c) w } := hni
     obtain ⟨_, b2, _, _, _, b6⟩ := notifyAll_noImm (notifySet (chainPath c)) _ hni'
@@ -1529,8 +1533,8 @@ theorem C16_sees_written_value (st : St) (c : Chain) (w : Val) (e : Nat) (x : Ef
     (hi : x.kind = .plain) (hp : (st.val.get (chainPath c)).isSome) :
     let p := chainPath c
     let q := chainPath x.chain
-    (runEff (stepOp st (.set c w)).1 e).log =
-        (stepOp st (.set c w)).1.log ++ [(e, seenAt (st.val.set p w) q)] ∧
+    (runEff (stepOp st (.set c w none)).1 e).log =
+        (stepOp st (.set c w none)).1.log ++ [(e, seenAt (st.val.set p w) q)] ∧
     (∀ r, q = p ++ r → (st.val.set p w).get q = w.get r) ∧
     (∀ r u, p = q ++ r → st.val.get q = some u → (st.val.set p w).get q = some (u.set r w)) ∧
     (¬ p <+: q → ¬ q <+: p → (st.val.set p w).get q = st.val.get q) := by
@@ -1540,7 +1544,7 @@ theorem C16_sees_written_value (st : St) (c : Chain) (w : Val) (e : Nat) (x : Ef
     | none => simp [hg] at hp
     | some old =>
       have hw := writeVia_fldIdx { st with log := [] } c hc (fun _ => w) old hg
-      have hstep : stepOp st (.set c w) = writeVia { st with log := [] } c (fun _ => w) := rfl
+      have hstep : stepOp st (.set c w none) = writeVia { st with log := [] } c (fun _ => w) := rfl
       have hni' : NoImm { st with log := [], val := st.val.set (chainPath c) w } := hni
       obtain ⟨_, b2, _, _, _, b6⟩ := notifyAll_noImm (notifySet (chainPath c)) _ hni'
       have h6 := b6 e
@@ -1581,14 +1585,19 @@ theorem C16_map_reader_subscribes (st : St) (e : Nat) (x : Eff) (n : Nat)
   unfold runEff
   simp only [he, runKind, hk, hs]
   split
-  · rw [trackAndRead_subs _ e x.chain hpl, contains_foldl_subscribe, hin]
-    rfl
-  · exact hin
+  · split
+    · exact hin
+    · rw [trackAndRead_subs _ e x.chain hpl, contains_foldl_subscribe, hin]
+      rfl
   · exact hin
 
 /-! ## 7. the state machine on concrete histories: witnesses of the other defects -/
 
 def runOps (st : St) (ops : List Op) : St := ops.foldl (fun s o => (stepOp s o).1) st
+
+/-- a write / patch through the un-erased accessor chain -/
+abbrev Op.set' (c : Chain) (v : Val) : Op := .set c v none
+abbrev Op.patch' (c : Chain) (v : Val) : Op := .patch c v none
 
 def leafSt (a b : Nat) : Val := .node .struct [.leaf a, .leaf b]
 def rowV (id label : Nat) : Val := .node .struct [.leaf id, .leaf label, leafSt id id]
@@ -1609,7 +1618,7 @@ theorem C16_segment_collision_machine_regression :
                     .idle,
                     .kpush [.kfld 4] (rowV 13 1300),
                     .idle,
-                    .set [.kfld 4, .key 13, .fld 1] (.leaf 7)]).ready = [1] ∧
+                    .set' [.kfld 4, .key 13, .fld 1] (.leaf 7)]).ready = [1] ∧
     related [.kfld 4, .key 13, .fld 1] [.kfld 4, .key 11, .fld 1] = false := by decide
 
 /-- F-C16-2 (repaired): a write through `list[1]` used to notify `this(list)`, which the reader of
@@ -1648,14 +1657,14 @@ theorem C16_patch_keyed_by_index_witness :
     let st := runOps stRows [.reader [.kfld 4, .key 10, .fld 1] .plain false none,
                              .reader [.kfld 4, .key 12, .fld 1] .plain false none,
                              .idle, .krev [.kfld 4], .idle,
-                             .patch [.kfld 4] (.node .kvec [rowV 12 77, rowV 11 1100, rowV 10 1000])]
+                             .patch' [.kfld 4] (.node .kvec [rowV 12 77, rowV 11 1100, rowV 10 1000])]
     st.ready = [0] ∧ (logicalGet st.val [.kfld 4, .key 12, .fld 1] matches .val (.leaf 77)) := by decide
 
 /-- F-C16-5: after a root write that drops the second row, the woken reader of `rows@11.label`
 indexes out of bounds (the real `AtKeyed::reader` panics) -/
 theorem C16_stale_keys_panic_witness :
     (runOps stRows [.reader [.kfld 4, .key 12, .fld 1] .plain false none, .idle,
-                    .set [] (demoRoot (demoMid []) [] [] [rowV 10 1000, rowV 11 1100]),
+                    .set' [] (demoRoot (demoMid []) [] [] [rowV 10 1000, rowV 11 1100]),
                     .idle]).panicked = true := by decide
 
 /-- F-C16-6: keyed store `[10,11,12]`; reader of `rows@11.label`; remove key 11 (segment 1 is freed, the
@@ -1665,7 +1674,7 @@ theorem C16_removed_key_reader_not_dropped_witness :
     let st := runOps stRows
       [.reader [.kfld 4, .key 11, .fld 1] .plain false none,
        .idle, .kremove [.kfld 4] 1, .idle, .kpush [.kfld 4] (rowV 14 1400), .idle,
-       .set [.kfld 4, .key 14, .fld 2, .fld 0] (.leaf 5)]
+       .set' [.kfld 4, .key 14, .fld 2, .fld 0] (.leaf 5)]
     st.ready = [0] ∧ (logicalGet st.val [.kfld 4, .key 11, .fld 1] matches .none) ∧
     related [.kfld 4, .key 14, .fld 2, .fld 0] [.kfld 4, .key 11, .fld 1] = false := by decide
 
@@ -1680,7 +1689,7 @@ theorem C16_option_map_woken_by_ancestor_write :
       [.reader [.fld 1, .fld 3, .fld 0, .fld 1] .omap false none,
        .reader [.fld 1, .fld 3, .fld 0, .fld 1] .plain false none,
        .idle,
-       .set [] (root [leafSt 5 6])]
+       .set' [] (root [leafSt 5 6])]
     st.ready = [0, 1] ∧ ((stepOp st .idle).1.log.map (·.1)) = [0, 1] ∧
     (match (stepOp st .idle).1.log.map (·.2) with | [.val (.leaf 6), .val (.leaf 6)] => true | _ => false) = true := by
   decide
@@ -1693,7 +1702,7 @@ theorem C16_iter_unkeyed_misses_ancestor_witness :
     related [] [.fld 3] = true ∧
     (runOps (St.init (demoRoot (demoMid []) [] [] []))
       [.reader [.fld 3] .iterU false none, .reader [.fld 3] .plain false none, .idle,
-       .set [] (demoRoot (demoMid []) [] [leafSt 1 1] [])]).ready = [0, 1] := by decide
+       .set' [] (demoRoot (demoMid []) [] [leafSt 1 1] [])]).ready = [0, 1] := by decide
 
 /-- not a finding (see `C16_wake_order_all_pairs_false`): immediate readers of `mid.inner.v`, `mid.inner`,
 `mid` created in this order; a write through `mid` runs `mid` (woken by `children(mid)`), then
@@ -1703,7 +1712,71 @@ theorem C16_subscription_order_below_written_field :
       [.reader [.fld 1, .fld 1, .fld 0] .plain true none,
        .reader [.fld 1, .fld 1] .plain true none,
        .reader [.fld 1] .plain true none,
-       .set [.fld 1] (demoMid [])]).log.map (·.1)) = [2, 0, 1, 2] := by decide
+       .set' [.fld 1] (demoMid [])]).log.map (·.1)) = [2, 0, 1, 2] := by decide
+
+/-! ## 7b. type erasure (`Field<T>` / `ArcField<T>`), attribute shapes, enums -/
+
+/-- **erasure is transparent for writes**: converting the accessor after any number `k` of steps into a
+`Field` / `ArcField` and writing through the rest of the chain does exactly what the un-erased chain does —
+same value, same notifications in the same order, same key tables — for every chain except the store
+itself (see `C16_root_handle_write_misses_descendants_witness`) -/
+theorem C16_erasure_transparent_set (st : St) (c : Chain) (v : Val) (k : Nat) (hc : c ≠ []) :
+    stepOp st (.set c v (some k)) = stepOp st (.set c v none) := by
+  cases c with
+  | nil => exact absurd rfl hc
+  | cons a r => rfl
+
+/-- … and for `patch` through a handle, for every chain, the store itself included -/
+theorem C16_erasure_transparent_patch (st : St) (c : Chain) (v : Val) (k : Nat) :
+    stepOp st (.patch c v (some k)) = stepOp st (.patch c v none) := rfl
+
+/-- **erasure is transparent for readers** whose erased prefix consists of struct fields, indexed elements
+and keyed fields: creating the handle changes nothing, and every later run is the run of the un-erased
+reader (the handle's `track_field` / `read` closures call the accessor's own) -/
+theorem C16_erasure_transparent_reader (st : St) (c : Chain) (kind : RKind) (imm : Bool) (k : Nat)
+    (hpl : ∀ a ∈ c.take k, a.isPlain = true) :
+    stepOp st (.reader c kind imm (some k)) = stepOp st (.reader c kind imm none) := by
+  have h := (walk_plainChain { st with log := [] } (c.take k) hpl).1
+  simp only [stepOp, h]
+
+/-- F-C16-8: a write of the whole store through a `Field<Root>` / `ArcField<Root>` handle notifies
+`children[]` only (`ArcField::from(Store)` uses `ArcStore::writer`, not `Store::try_write`): the reader of
+`mid.inner.v` is not woken, while the same write through the store wakes it -/
+theorem C16_root_handle_write_misses_descendants_witness :
+    let st := runOps (St.init (demoRoot (demoMid []) [] [] []))
+      [.reader [.fld 1, .fld 1, .fld 0] .plain false none, .reader [] .plain false none, .idle]
+    (stepOp st (.set [] (demoRoot (demoMid []) [leafSt 1 1] [] []) (some 0))).1.ready = [1] ∧
+    (stepOp st (.set [] (demoRoot (demoMid []) [leafSt 1 1] [] []) none)).1.ready = [0, 1] ∧
+    related [] [.fld 1, .fld 1, .fld 0] = true := by decide
+
+def enA (x y : Nat) : Val := .node .enumv [.leaf 0, .leaf x, .leaf y]
+/-- a store whose field 0 is the enum `En::A { x, y }` and whose field 1 is a struct with a skipped field in the
+middle (`SkipMid { a, #[store(skip)] s, b, c }`) -/
+def stShapes : St :=
+  St.init (.node .struct [enA 1 2, .node .struct [.leaf 10, .leaf 11, .leaf 12, leafSt 13 14]])
+
+/-- F-C16-9: `derive(Store)` gives every field of an enum variant the path segment 0, so a write through
+the held `Subfield` of `A.x` wakes the reader that holds the `Subfield` of `A.y` -/
+theorem C16_enum_variant_fields_share_segment_witness :
+    (walk stShapes [.fld 0, .var 0 0]).2.tpath = (walk stShapes [.fld 0, .var 0 1]).2.tpath ∧
+    (runOps stShapes [.reader [.fld 0, .var 0 1] .plain false none, .idle,
+                      .set' [.fld 0, .var 0 0] (.leaf 9)]).ready = [0] ∧
+    related [.fld 0, .var 0 0] [.fld 0, .var 0 1] = false := by decide
+
+/-- `derive(Store)` and `derive(Patch)` agree on the path segment of the fields that follow a
+`#[store(skip)]` field: a patch that changes only `b` (declared after the skipped `s`) notifies the path of
+the accessor of `b`; it wakes the readers of `b`, of the struct and of the store, and neither the reader of
+`a` nor the reader of `c` -/
+theorem C16_patch_after_skipped_field_witness :
+    let st := runOps stShapes
+      [.reader [.fld 1, .fld 0] .plain false none, .reader [.fld 1, .fld 2] .plain false none,
+       .reader [.fld 1, .fld 3] .plain false none, .reader [.fld 1] .plain false none,
+       .reader [] .plain false none, .idle,
+       .patch' [] (.node .struct [enA 1 2, .node .struct [.leaf 10, .leaf 11, .leaf 99, leafSt 13 14]])]
+    st.ready = [1, 3, 4] ∧
+    (patchVal (.node .struct [.leaf 10, .leaf 11, .leaf 12, leafSt 13 14])
+              (.node .struct [.leaf 10, .leaf 77, .leaf 12, leafSt 13 15]) [1]).2 = [[1, 1], [1, 3, 1]] ∧
+    (walk stShapes [.fld 1, .fld 3, .fld 1]).2.tpath = [1, 3, 1] := by decide
 
 /-! ## 8. non-vacuity of every hypothesis -/
 
@@ -1736,8 +1809,8 @@ example : NoImm stDemo ∧ (stDemo.val.get (chainPath [.fld 3, .idx 1])).isSome 
 
 /-- and on it the conclusions can be observed: writing `list[1]` wakes nobody (reader 1 reads `list[0].v`),
 writing `list[0]` wakes reader 1, writing the root wakes all three (the keyed field's reader included) -/
-example : (stepOp stDemo (.set [.fld 3, .idx 1] (leafSt 7 8))).1.ready = [] ∧
-    (stepOp stDemo (.set [.fld 3, .idx 0] (leafSt 7 8))).1.ready = [1] ∧
-    (stepOp stDemo (.set [] (demoRoot (demoMid []) [] [] []))).1.ready = [0, 1, 2] := by decide
+example : (stepOp stDemo (.set' [.fld 3, .idx 1] (leafSt 7 8))).1.ready = [] ∧
+    (stepOp stDemo (.set' [.fld 3, .idx 0] (leafSt 7 8))).1.ready = [1] ∧
+    (stepOp stDemo (.set' [] (demoRoot (demoMid []) [] [] []))).1.ready = [0, 1, 2] := by decide
 
 end Leptos.Store
